@@ -352,8 +352,7 @@ def execute(case, ctx):
           f"|ans={'+'.join(sorted(k for k, v in (cfg.get('answers') or {}).items() if v))}|{'gen' if case.get('program') else cfg.get('project')}"
     ctx.count("clauses_checked")
     if case.get("lattice_index") is not None:
-        ctx.count("lattice_points_enumerated")  # thorough tier: equals lattice_size when the fixed-project lattice was swept completely
-        ctx.stats["lattice_size"] = case["lattice_size"]
+        ctx.count("lattice_points_enumerated")  # thorough tier: 864 = the whole fixed-project lattice (len(lattice()))
     got = judged_tree(new)
     orig = judged_tree(files)
 
